@@ -68,6 +68,28 @@ pub fn threads_named(prefix: &str) -> usize {
     n
 }
 
+/// Thread ids of the live threads of this process whose name starts with `prefix`.
+pub fn tids_named(prefix: &str) -> Vec<u64> {
+    let p15 = &prefix[..prefix.len().min(15)];
+    let mut v = Vec::new();
+    if let Ok(rd) = std::fs::read_dir("/proc/self/task") {
+        for e in rd.filter_map(|e| e.ok()) {
+            if let Ok(c) = std::fs::read_to_string(e.path().join("comm")) {
+                if c.trim_end().starts_with(p15) {
+                    if let Ok(t) = e.file_name().to_string_lossy().parse::<u64>() {
+                        v.push(t);
+                    }
+                }
+            }
+        }
+    }
+    v
+}
+
+pub fn tid_alive(tid: u64) -> bool {
+    std::path::Path::new(&format!("/proc/self/task/{}", tid)).exists()
+}
+
 pub fn thread_count() -> usize {
     std::fs::read_dir("/proc/self/task").map(|rd| rd.count()).unwrap_or(0)
 }
